@@ -231,6 +231,14 @@ def make_systems(sb: Sandbox):
     # chain prefixes in other spellings
     systems.append(('chain-prefix-sub-slash', FileSystemChain((RawFileSystem(sb.root), 'sub/')), sb.root, 'sub'))
     systems.append(('chain-prefix-dot-sub', FileSystemChain((RawFileSystem(sb.root), './sub')), sb.root, 'sub'))
+    # the factory: every call hands out a filesystem of its own - one caller switching the constraint of ITS object off has
+    # no effect on what the next caller gets for the same folder (under either spelling)
+    from srctools.filesys import get_filesystem
+    relaxed = get_filesystem(sb.root)
+    relaxed.constrain_path = False
+    systems.append(('get_filesystem-after-another-was-relaxed', get_filesystem(sb.root), sb.root, ''))
+    systems.append(('get_filesystem-trailing-sep-after-another-was-relaxed', get_filesystem(sb.root + os.sep), sb.root, ''))
+    sb.keep_alive = relaxed
     # history: a root given relative to the working directory, and the working directory changes before the filesystem is
     # used - to a place where the same relative name exists.  The root is the directory it named when it was created.
     sb.cwd0 = os.getcwd()
